@@ -187,6 +187,8 @@ def check(cx):
                       'matches): %s' % (m,), loc=bfn, found=show(bv))
 
     # ---- refusal numerics (R7.2)
+    r1b.instance('channel and key lists reach the handler as sent, paired by position (C13 R13.14)')
+    depends(cx, r1b, 'C13', ('R13.14',), 'the JOIN lists are the parameters as sent', only=r'\|JOIN\.')
     r1b.instance('the matcher behind +b / +e / +I (imported)')
     depends(cx, r1b, 'C14', ('R14.5', 'R14.2'), 'the matcher behind +b / +e / +I compares characters and terminates',
             only=r'^(match_wildcard|starts_single_wilcards)\|')
